@@ -175,6 +175,11 @@ func harnessC11SharedLog() {
 	var err error
 	if withUpcast {
 		err = busA.ReplayWithUpcast(context.Background(), from, cb)
+	} else if vBool() {
+		// a reader bus whose store option replaced an earlier (default) one: it is the store
+		// given last that is replayed
+		reader := New(WithStore(NewMemoryStore()), WithStore(store))
+		err = reader.Replay(context.Background(), from, cb)
 	} else {
 		err = busA.Replay(context.Background(), from, cb)
 	}
